@@ -313,6 +313,10 @@ func init() {
 			Panic:  "inconclusive"},
 	}, Assumptions: []string{"for type-correct documents yaml.v3's Decode and encoding/json's Unmarshal fill Go values identically (binding by the yaml / json tag of the default tag set)"}})
 	reg(&Property{ID: "C11", Units: []Unit{
+		{Name: "allOf-inside-an-allOf-branch", Harness: "pkg/generator:HarnessC11Nested", Layer: "L3", Only: "C11.",
+			Desc:   "x = allOf[$ref Named, Second]; Second (inline or a definition) declares owner = allOf[$ref D, Extra] where D is the SAME definition the outer allOf refers to or another one with equal content; Named has a symbolic minLength and an optional required name, Extra an optional required email. Nothing is recursive: accepted iff x satisfies Named and, when owner is present, owner satisfies D and Extra",
+			Bounds: "one nesting level, 2^5 shape choices, symbolic string lengths, members absent or strings",
+			Quick:  map[string]int{"GRID": 2, "GRIDMAG": 36, "N": 2}, Panic: "inconclusive"},
 		{Name: "allOf-anyOf/inline-branches", Harness: "pkg/generator:HarnessC11", Layer: "L3", Only: "C11.",
 			Desc:   "whole generator (resolveRefs, schemas.AllOf/AnyOf with the mergo model, generateAnyOfType/generateAllOfType, anyOfValidator) on a required property x = allOf/anyOf of two object branches over the property names {a, b}: each branch declares a subset, requires some, and puts a symbolic minLength or maxLength on each; emitted code on a symbolic type-correct document: allOf accepted iff every branch's reference model accepts, anyOf iff at least one does",
 			Bounds: "B=2 branches, property sets {a} / {a,b}, one symbolic string-length keyword (or none) per property, documents with a, b absent or strings; mergo is a hand model of deepMerge for the option set the repository uses (validated by native replay)",
